@@ -93,6 +93,10 @@ def tok_op(o, dump_before=None):
         return [6, o["i"]]
     if k == 7:
         return [7]
+    if k == 10:
+        return [10, o["i"], o["p"]]
+    if k == 11:
+        return [11, o["i"], o["u"]]
     hdrs = o.get("hdrs")
     if o.get("from_u") is not None:
         hdrs = dump_before["umaps"][o["from_u"]]
@@ -114,3 +118,22 @@ def tok_case(ops, resp):
         steps.append([tok_op(o, prev), tok_dump(d)])
         prev = d
     return [resp["start"], steps]
+
+
+def gen_call(rng, reserved_p=0.0):
+    """one RPC at context level: client context with user headers / cid / timeout -> wire -> server context;
+    handler adds response headers (may try to set reserved names) -> wire -> caller's context"""
+    ops = [{"k": 1, "cid": (rval(rng) or b"c").hex()}, {"k": 7}]
+    for _ in range(rng.randrange(0, 6)):
+        ops.append({"k": 2, "i": 0, "m": 0, "key": rkey(rng, reserved_p).hex(), "val": rval(rng).hex()})
+    if rng.random() < 0.7:
+        ops.append({"k": 3, "i": 0, "ns": rng.choice([1000000, 1500000, 999999, 0, 20 * 10 ** 6, rng.randrange(0, 10 ** 11)])})
+    if rng.random() < 0.3:   # response headers already on the caller's context before the call
+        ops.append({"k": 2, "i": 0, "m": 1, "key": rkey(rng, 0).hex(), "val": rval(rng).hex()})
+    ops.append({"k": 10, "i": 0, "p": 0})
+    for _ in range(rng.randrange(0, 6)):
+        ops.append({"k": 2, "i": 1, "m": 1, "key": rkey(rng, 0.25).hex(), "val": rval(rng).hex()})
+    if rng.random() < 0.3:   # the handler makes an onward call with the received context
+        ops.append({"k": 10, "i": 1, "p": 0})
+    ops.append({"k": 11, "i": 1, "u": 0})
+    return ops
